@@ -6,6 +6,7 @@ imported hdl21); Coq evaluates the property's specification on the observations 
 group (identities, body runs, names at return / at the end / in the exported package, names across
 histories) and compares them with the model (Model/GenCache.v, Model/ParamName.v)."""
 import json, itertools
+from decimal import Decimal, Context, MAX_PREC, MAX_EMAX, MIN_EMIN
 from concurrent.futures import ThreadPoolExecutor
 from . import core
 from .core import cstr, cbool, clist
@@ -19,8 +20,9 @@ IMPORTS = ("Require Import Hdl21.Base.PyInt Hdl21.Model.ParamName Hdl21.Model.Ge
 # ------------------------------------------------------------------------------------------------
 def c_dtype(d):
     t = d[0]
-    if t in ("int", "float", "str", "bool", "ref"):
-        return {"int": "DInt", "float": "DFloat", "str": "DStr", "bool": "DBool", "ref": "DRef"}[t]
+    if t in ("int", "float", "str", "bool", "ref", "scalar", "pref", "dec"):
+        return {"int": "DInt", "float": "DFloat", "str": "DStr", "bool": "DBool", "ref": "DRef",
+                "scalar": "DScalar", "pref": "DPref", "dec": "DDec"}[t]
     if t == "opt":
         return f"(DOpt {c_dtype(d[1])})"
     if t == "enum":
@@ -30,8 +32,28 @@ def c_dtype(d):
     raise ValueError(d)
 
 
+def c_dec(sign, coef, exp):
+    return f"(Dec.mkDec {cbool(bool(sign))} {int(coef)}%N {core.cz(int(exp))})"
+
+
+def dec_tuple(text):
+    """(sign, coefficient, exponent) of the Decimal the implementation driver builds from `text`"""
+    sign, digits, exp = Decimal(text).as_tuple()
+    return sign, int("".join(str(x) for x in digits) or "0"), exp
+
+
 def c_val(v):
     t = v[0]
+    if t == "P":        # written: Prefixed(number=Decimal(text), prefix=Prefix(q))
+        return f"(VPrefW {c_dec(*dec_tuple(v[1]))} {core.cz(v[2])})"
+    if t == "D":        # written: Decimal(text)
+        return f"(VDecW {c_dec(*dec_tuple(v[1]))})"
+    if t == "L":
+        return f"(VLit {cstr(v[1])})"
+    if t == "Pw":       # observed: number (sign, coefficient, exponent) and prefix of the held Prefixed
+        return f"(VPrefW {c_dec(v[1], v[2], v[3])} {core.cz(v[4])})"
+    if t == "Dw":
+        return f"(VDecW {c_dec(v[1], v[2], v[3])})"
     if t == "n":
         return "VNone"
     if t == "i":
@@ -147,8 +169,83 @@ def outputs_printable(outs):
 ADV_STR = ["", "x", "y", "z", "x b=y", "y b=z", "None", "a=1", " ", "=", "x y", "x=y", "(", ")", "a)(b", "b=", " b=",
            "1", "1.0", "True", "null", '"', "'", "\\", "x  y", "a b=c d=e", "{", "#", "0", "-0.0"]
 INTS = [0, 1, -1, 2, 3, 7, 10, 255, -12, 10 ** 20, -(10 ** 18), 999999999999999]
-FLOATS = [0.0, 1.0, 1.5, -2.5, 1e-11, 1e22, 3.14159, 1e-05, 0.1, 2.0, 1e16, 123456.789, float("inf"), float("-inf"),
+FLOATS = [0.0, -0.0, 1.0, 1.5, -2.5, 1e-11, 1e22, 3.14159, 1e-05, 0.1, 2.0, 1e16, 123456.789, float("inf"), float("-inf"),
           5e-324, 1.7976931348623157e308]
+
+
+# classes of EQUAL values of a number-like field, each written in several ways (prefix, digits, type of the input)
+SCALAR_CLASSES = [
+    [["P", "2", 3], ["P", "2000", 0], ["P", "2000000", -3], ["P", "2.000", 3], ["i", 2000], ["f", "2000.0"], ["s", "2000"],
+     ["s", "2.0e3"], ["s", " 2_000 "], ["D", "2E+3"], ["P", "0.002", 6], ["P", "20", 2]],
+    [["P", "0.5", 0], ["P", "500", -3], ["f", "0.5"], ["s", ".5"], ["s", "5e-1"], ["D", "0.50"], ["P", "5", -1], ["P", "50", -2]],
+    [["i", 0], ["P", "0", 0], ["P", "-0", 3], ["s", "0.00"], ["f", "0.0"], ["f", "-0.0"], ["D", "0E+5"], ["P", "0.000", -24], ["s", "-0"]],
+    [["P", "1", -12], ["f", "1e-12"], ["s", "1e-12"], ["P", "1000", -15], ["P", "0.001", -9], ["D", "0.000000000001"]],
+    [["f", "-2.5e-07"], ["P", "-250", -9], ["P", "-0.25", -6], ["s", "-2.5E-7"], ["D", "-0.00000025"]],
+    [["i", 2001], ["P", "2.001", 3], ["s", "2001.0"]],
+    [["P", "1", 24], ["i", 10 ** 24], ["s", "1e24"], ["P", "1000", 21]],
+    [["D", "0.1"], ["P", "100", -3], ["f", "0.1"], ["s", "+.1"]],
+    [["D", "0.10000000000000000001"], ["P", "100.00000000000000001", -3]],
+    [["s", "w/5"], ["L", "w/5"]],
+    [["s", "2*l"], ["L", "2*l"]],
+    [["L", "2000"]],
+    [["s", "nan"], ["L", "nan"]],
+    [["f", "2.5e-07"], ["P", "250", -9], ["s", "+2.5E-7"]],          # the opposite of class 4
+    [["P", "2", 0], ["i", 2], ["s", "2.000"], ["P", "2000", -3]],      # the digits of class 0 at another prefix
+]
+PREF_CLASSES = [[v for v in c if v[0] == "P"] for c in SCALAR_CLASSES]
+PREF_CLASSES = [c for c in PREF_CLASSES if c]
+DEC_CLASSES = [
+    [["D", "2"], ["D", "2.0"], ["i", 2], ["s", "2.00"], ["f", "2.0"], ["s", " 2 "], ["D", "0.2E+1"]],
+    [["D", "0.1"], ["f", "0.1"], ["s", ".1"], ["D", "0.10"]],
+    [["D", "0.10000000000000000001"]],
+    [["i", 0], ["D", "-0.0"], ["s", "0e5"], ["f", "-0.0"]],
+    [["D", "1E+30"], ["i", 10 ** 30], ["s", "1_000e27"]],
+    [["D", "-7.5"], ["f", "-7.5"], ["s", "-75e-1"]],
+]
+NUM_CLASSES = {"scalar": SCALAR_CLASSES, "pref": PREF_CLASSES, "dec": DEC_CLASSES}
+NREF = 10
+REF_KIND = {0: "module", 1: "module", 8: "module", 2: "generator", 3: "extmodule", 4: "primcall", 5: "primcall", 9: "primcall",
+            6: "extcall", 7: "extcall"}
+REF_VARIANTS = {4: 4, 5: 3, 6: 3, 7: 3, 9: 3}
+
+_EXACT = Context(prec=MAX_PREC, Emax=MAX_EMAX, Emin=MIN_EMIN)
+
+
+def value_id(kind, v):
+    """Harness-side identity of the VALUE a written number-like argument denotes (used for coverage counting and
+    for re-writing an argument as an equal one; the verdict never depends on it)."""
+    t = v[0]
+    if t == "L":
+        return ("L", v[1])
+    if t == "s":
+        try:
+            d = Decimal(v[1])
+            if not d.is_finite():
+                raise ValueError
+        except Exception:
+            return ("L", v[1]) if kind == "scalar" else ("bad", v[1])
+    elif t == "P":
+        d = Decimal(v[1]).scaleb(v[2], _EXACT)
+    elif t in ("D", "f"):
+        d = Decimal(v[1])
+    elif t == "i":
+        d = Decimal(v[1])
+    else:
+        return ("other", json.dumps(v))
+    d = d.normalize(_EXACT)
+    return ("N", "0" if not d else str(d))
+
+
+def num_class(kind, v):
+    vid = value_id(kind, v)
+    for c in NUM_CLASSES[kind]:
+        if value_id(kind, c[0]) == vid:
+            return c
+    return None
+
+
+def with_form(r, v):
+    return v + [r.choice(["new", "mul", "ctor"])] if v[0] == "P" and len(v) == 3 else v
 
 
 def S(s):
@@ -164,9 +261,10 @@ def F(x):
 
 
 def gen_dtype(r, depth=1):
-    k = r.choices(["int", "float", "str", "bool", "opt", "enum", "ref", "rec"], [5, 4, 6, 1, 4, 2, 2, 2 if depth > 0 else 0])[0]
+    k = r.choices(["int", "float", "str", "bool", "opt", "enum", "ref", "rec", "scalar", "pref", "dec"],
+                  [5, 4, 6, 1, 4, 2, 3, 2 if depth > 0 else 0, 6, 1, 2])[0]
     if k == "opt":
-        return ["opt", [r.choice(["int", "float", "str"])]]
+        return ["opt", [r.choice(["int", "float", "str", "scalar", "scalar", "dec"])]]
     if k == "enum":
         return ["enum", r.choice([2, 3])]
     if k == "rec":
@@ -212,7 +310,13 @@ def gen_value(r, d, bad=0.0):
     if t == "enum":
         return ["e", r.randrange(d[1]), r.choice(["member", "value"])]
     if t == "ref":
-        return ["r", r.randrange(4)]
+        i = r.randrange(NREF)
+        return ["r", i, r.randrange(REF_VARIANTS.get(i, 1))]
+    if t in NUM_CLASSES:
+        cs = NUM_CLASSES[t]
+        # mostly from a few classes, so that equal values written differently meet inside one group
+        c = cs[r.randrange(3)] if r.random() < 0.6 else r.choice(cs)
+        return with_form(r, list(r.choice(c)))
     if t == "rec":
         return ["R", [gen_value(r, dd, 0) for dd in d[1]], r.choice(["inst", "dict"])]
     raise ValueError(d)
@@ -264,10 +368,17 @@ def rewrite_args(r, fields, args):
             d = d[1]
         if a is None:
             out.append(f["default"] if r.random() < 0.6 else None)
+        elif d[0] in NUM_CLASSES and num_class(d[0], a) is not None:
+            out.append(with_form(r, list(r.choice(num_class(d[0], a)))))
+        elif a[0] == "r" and a[1] in REF_VARIANTS:
+            out.append(["r", a[1], r.randrange(REF_VARIANTS[a[1]])])
         elif a[0] == "e":
             out.append(["e", a[1], "value" if a[2] == "member" else "member"])
         elif a[0] == "R":
-            out.append(["R", a[1], "dict" if a[2] == "inst" else "inst"])
+            sub = rewrite_args(r, [dict(dtype=dd, default=None) for dd in d[1]], a[1]) if d[0] == "rec" and len(d[1]) == len(a[1]) else a[1]
+            out.append(["R", sub, "dict" if a[2] == "inst" else "inst"])
+        elif d[0] == "float" and a[0] == "f" and a[1] in ("0.0", "-0.0") and r.random() < 0.7:
+            out.append(F(-float(a[1])))
         elif d[0] == "float" and a[0] == "f" and a[1] not in ("inf", "-inf") and float(a[1]) == int(float(a[1])) \
                 and abs(int(float(a[1]))) < 10 ** 15:
             out.append(I(int(float(a[1]))))
@@ -386,16 +497,102 @@ def corpus():
            [0, A(0, 1, S("x"), 2, ("member", "inst")), "kw"], [0, A(0, 1, S("x"), 3, ("member", "inst")), "kw"]],
           [[0, A(0, 1, S("x"), 3, ("value", "inst")), "kw"], [0, A(0, 1, S("x"), 0, ("value", "dict")), "kw"]]]
     gs.append(dict(univ=u, table=[], hists=hs, tag="shapes"))
+    # 6b. negative zero: -0.0 == 0.0 is one parameter value (readable and hashed name form)
+    u = [dict(name="G", fields=[dict(name="f", dtype=["float"], default=F(0.0))]),
+         dict(name="H", fields=[dict(name="f", dtype=["opt", ["float"]], default=None), dict(name="e", dtype=["bool"], default=["b", False])])]
+    z, nz = F(0.0), F(-0.0)
+    hs = [[[0, [nz], "kw"]], [[0, [z], "kw"]], [[1, [nz, None], "kw"]], [[1, [z, None], "inst"]],
+          [[0, [nz], "kw"], [0, [z], "inst"], [0, [I(0)], "kw"], [0, [None], "kw"], [1, [z, None], "kw"], [1, [nz, None], "kw"]],
+          [[1, [nz, None], "inst"], [1, [I(0), None], "kw"], [0, [None], "kw"], [0, [nz], "kw"], [0, [["b", False]], "kw"]]]
+    gs.append(dict(univ=u, table=[], hists=hs, tag="negative-zero"))
+    gs += corpus_numbers()
+    return gs
+
+
+def spell_hists(gi, spellings, other=()):
+    """Histories for one generator over spellings of equal values: every spelling ALONE in a fresh interpreter (its
+    name when it is the first and only call), all of them in order, reversed, and rotated (each spelling first once
+    among the rotations of short lists); `other` = calls with different values mixed in."""
+    calls = [[gi, [v], "kw" if k % 2 == 0 else "inst"] for k, v in enumerate(spellings)]
+    oth = [[gi, [v], "kw"] for v in other]
+    hs = [[c] for c in calls]
+    hs.append(calls + oth)
+    hs.append(list(reversed(calls + oth)))
+    for k in range(1, min(len(calls), 4)):
+        hs.append(calls[k:] + oth + calls[:k])
+    return hs
+
+
+def corpus_numbers():
+    gs = []
+    P = lambda num, q, form="new": ["P", num, q, form]
+    # 9. THE witness of the name-by-first-spelling defect (item 2 of the extension): r = 2*K / 2000*UNIT / ...
+    f = [dict(name="r", dtype=["scalar"], default=P("1", 3))]
+    u = [dict(name="G", fields=f)]
+    sp = [P("2", 3, "mul"), P("2000", 0, "mul"), P("2000000", -3), P("2.000", 3, "ctor"), ["i", 2000], ["f", "2000.0"],
+          ["s", "2.0e3"], ["D", "2E+3"]]
+    gs.append(dict(univ=u, table=[], hists=spell_hists(0, sp, other=[["i", 2001], P("1", 3)]), tag="scalar-spellings"))
+    # 10. unequal numbers that agree as floats: three modules, three names (pinned encoder: one name)
+    sp = [["D", "0.1"], ["D", "0.10000000000000000001"], ["s", "0.1000000000000000001"], ["f", "0.1"]]
+    calls = [[0, [v], "kw"] for v in sp]
+    gs.append(dict(univ=u, table=[], hists=[calls, list(reversed(calls))], tag="scalar-float-collapse"))
+    # 11. zero: sign and exponent of a zero are not part of its value
+    sp = SCALAR_CLASSES[2]
+    gs.append(dict(univ=u, table=[], hists=spell_hists(0, sp[:6], other=[P("1", -24)]), tag="scalar-zeros"))
+    # 12. Literal against number: "2000" given as Literal is not the number 2000; a str that is no number is a Literal
+    sp = [["s", "w/5"], ["L", "w/5"], ["L", "2000"], ["s", "2000"], ["i", 2000], ["s", "nan"], ["L", "nan"], ["s", "1e"], ["s", "_"]]
+    calls = [[0, [v], "kw"] for v in sp]
+    gs.append(dict(univ=u, table=[], hists=[calls, list(reversed(calls)), calls[2:5], calls[3:4] + calls[2:3]], tag="scalar-literals"))
+    # 13. Decimal-typed and Prefixed-typed fields, nested and optional Scalar
+    fd = [dict(name="n", dtype=["rec", [["opt", ["scalar"]], ["int"]]], default=None),
+          dict(name="d", dtype=["dec"], default=["i", 1]), dict(name="p", dtype=["pref"], default=P("1", 0))]
+    ud = [dict(name="Shapes2", fields=fd)]
+    A = lambda d, p, s, form: [["R", [s, I(1)], form], d, p]
+    hs = [[[0, A(["D", "2.0"], P("5", -1), ["f", "0.5"], "inst"), "kw"], [0, A(["i", 2], P("0.5", 0), P("500", -3), "dict"), "inst"],
+           [0, A(["s", " 2.00 "], P("50", -2, "mul"), ["s", "5e-1"], "inst"), "kw"], [0, A(["D", "2.0"], P("5", -1), ["n"], "inst"), "kw"],
+           [0, A(["D", "2.1"], P("5", -1), ["f", "0.5"], "inst"), "kw"], [0, A(None, None, ["L", "x"], "dict"), "kw"],
+           [0, A(["i", 1], P("1000", -3), ["s", "x"], "inst"), "kw"]],
+          [[0, A(["f", "2.0"], P("0.5", 0), ["s", ".5"], "dict"), "kw"], [0, A(["D", "2"], P("500", -3), ["D", "0.50"], "inst"), "inst"]],
+          [[0, A(["s", "2"], P("500", -3), P("5", -1), "inst"), "kw"]]]
+    gs.append(dict(univ=ud, table=[], hists=hs, tag="number-shapes"))
+    # 14. nested: Outer(r) calls Inner with ANOTHER spelling of r and hands its module on; Wrap(r) builds its own module
+    #     after calling Inner with a third spelling: one module must never appear under two names
+    fr = [dict(name="r", dtype=["scalar"], default=None)]
+    un = [dict(name="Outer", fields=fr), dict(name="Wrap", fields=fr), dict(name="Inner", fields=fr)]
+    tn = [dict(gen=0, args=[["i", 2000]], calls=[[2, [P("2000", 0)], "kw"]], ret=["pass", 0]),
+          dict(gen=1, args=[P("2", 3)], calls=[[2, [["s", "2.0e3"]], "inst"], [2, [["f", "0.5"]], "kw"]], ret=["fresh", None]),
+          dict(gen=0, args=[["f", "0.5"]], calls=[[2, [P("500", -3)], "kw"], [1, [P("2000000", -3)], "kw"]], ret=["pass", 0])]
+    hs = [[[2, [P("2", 3)], "kw"], [0, [P("2.000", 3)], "kw"], [1, [["i", 2000]], "kw"]],
+          [[0, [["s", "2000"]], "kw"], [2, [["D", "2E+3"]], "kw"], [1, [P("0.002", 6)], "inst"]],
+          [[1, [["f", "2000.0"]], "kw"], [0, [P("2", 3, "mul")], "inst"], [2, [["i", 2000]], "kw"]],
+          [[0, [P("5", -1)], "kw"], [2, [["s", ".5"]], "kw"], [1, [["i", 2000]], "kw"], [2, [P("2", 3)], "kw"]],
+          [[2, [["f", "0.5"]], "kw"], [1, [P("2000", 0)], "kw"], [0, [["D", "0.50"]], "kw"]]]
+    gs.append(dict(univ=un, table=tn, hists=hs, tag="nested-spellings"))
+    # 15. Module-, Generator-, ExternalModule-, PrimitiveCall- and ExternalModuleCall-valued fields; calls compare by value
+    fk = [dict(name="c", dtype=["ref"], default=None), dict(name="o", dtype=["opt", ["scalar"]], default=["n"])]
+    uk = [dict(name="Kinds", fields=fk)]
+    calls = [[0, [["r", i, v], None], "kw" if (i + v) % 2 else "inst"] for i in range(NREF) for v in range(REF_VARIANTS.get(i, 1))]
+    rot = calls[7:] + calls[:7]
+    gs.append(dict(univ=uk, table=[], hists=[calls, list(reversed(calls)), rot, [calls[5]], [calls[4]], [calls[12]], [calls[11]]],
+                   tag="ref-kinds"))
+    # 16. outside the 20-places domain: 1E-21 == 0 (Prefixed.__eq__ rounds) but the hashes differ - two calls
+    sp = [["D", "1E-21"], ["i", 0], ["P", "1000", -24], ["D", "0.0000000000000000000001"], ["P", "0.1", -24]]
+    calls = [[0, [v], "kw"] for v in sp]
+    gs.append(dict(univ=u, table=[], hists=[calls, list(reversed(calls))], tag="tolerance"))
     return gs
 
 
 def exhaustive_small(quick):
     """Every pair of parameter sets over small value boxes, all in one history per box (and its reverse)."""
     gs = []
-    strs = ["", "x", "y", "z", "x b=y", "y b=z", "None", " ", "=", "b=", "x b="] if quick else ADV_STR
+    # (the Coq evaluation of one history grows faster than quadratically with its length: 18 x 18 values take about a
+    #  minute, the full 30 x 30 box of the first round never finished inside the coqc timeout)
+    boxes = [["", "x", "y", "z", "x b=y", "y b=z", "None", " ", "=", "b=", "x b="]] if quick else \
+        [ADV_STR[:18], ADV_STR[18:] + ADV_STR[:6]]
     u = [dict(name="G", fields=two_str_class())]
-    calls = [[0, [S(a), S(b)], "kw"] for a in strs for b in strs]
-    gs.append(dict(univ=u, table=[], hists=[calls, list(reversed(calls))], tag="box-str-str"))
+    for k, strs in enumerate(boxes):
+        calls = [[0, [S(a), S(b)], "kw"] for a in strs for b in strs]
+        gs.append(dict(univ=u, table=[], hists=[calls, list(reversed(calls))], tag="box-str-str" + ("" if k == 0 else f"-{k + 1}")))
     u = [dict(name="G", fields=[dict(name="a", dtype=["opt", ["str"]], default=["n"]), dict(name="b", dtype=["opt", ["int"]], default=["n"])])]
     vals_a = [["n"], S("None"), S(""), S("x"), S("x b=1"), S("x b=None")]
     vals_b = [["n"], I(0), I(1), I(-1), ["b", True]]
@@ -403,7 +600,7 @@ def exhaustive_small(quick):
     gs.append(dict(univ=u, table=[], hists=[calls, list(reversed(calls))], tag="box-opt"))
     u = [dict(name="G", fields=[dict(name="i", dtype=["int"], default=None), dict(name="f", dtype=["opt", ["float"]], default=None)])]
     vi = [I(0), I(1), ["b", True], ["b", False], I(-1), I(10 ** 20)]
-    vf = [["n"], F(0.0), F(1.0), I(1), ["b", True], I(0), F(1e-11), F(float("inf")), F(1e22), I(999999999999999)]
+    vf = [["n"], F(0.0), F(-0.0), F(1.0), I(1), ["b", True], I(0), F(1e-11), F(float("inf")), F(1e22), I(999999999999999)]
     calls = [[0, [a, b], "kw"] for a in vi for b in vf]
     gs.append(dict(univ=u, table=[], hists=[calls, list(reversed(calls))], tag="box-num"))
     # readable-name length limit: names of 124..131 characters
@@ -414,7 +611,121 @@ def exhaustive_small(quick):
         calls.append([0, [S("q" * (n - 1) + "r"), I(7)], "inst"])
     calls += [[0, [S("q" * 121), I(77)], "kw"], [0, [S("q" * 120), I(-77)], "kw"], [0, [S("q" * 119), I(10 ** 3)], "kw"]]
     gs.append(dict(univ=u, table=[], hists=[calls, list(reversed(calls))], tag="box-length"))
+    # number-like fields: every pair of spellings, equal or not, inside one history and its reverse
+    u = [dict(name="G", fields=[dict(name="r", dtype=["scalar"], default=None)])]
+    vals = SCALAR_CLASSES[0][:5 if quick else 12] + SCALAR_CLASSES[1][:3 if quick else 8] + SCALAR_CLASSES[2][:4 if quick else 9] \
+        + SCALAR_CLASSES[5][:2] + SCALAR_CLASSES[7][:2] + SCALAR_CLASSES[8][:1] + SCALAR_CLASSES[9] + SCALAR_CLASSES[11] \
+        + SCALAR_CLASSES[4][:2] + SCALAR_CLASSES[13][:2] + SCALAR_CLASSES[14][:2]
+    calls = [[0, [v], "kw" if k % 3 else "inst"] for k, v in enumerate(vals)]
+    gs.append(dict(univ=u, table=[], hists=[calls, list(reversed(calls))], tag="box-scalar"))
+    u = [dict(name="G", fields=[dict(name="d", dtype=["dec"], default=None), dict(name="p", dtype=["opt", ["pref"]], default=["n"])])]
+    vd = DEC_CLASSES[0][:4] + DEC_CLASSES[1][:2] + DEC_CLASSES[2] + DEC_CLASSES[3][:2]
+    vp = [["n"], ["P", "2", 3], ["P", "2000", 0], ["P", "2.001", 3]]
+    calls = [[0, [a, b], "kw"] for a in vd for b in vp]
+    gs.append(dict(univ=u, table=[], hists=[calls, list(reversed(calls))], tag="box-dec-pref"))
     return gs
+
+
+# ---- stream "values": validation of one written value, == and hash of two validated instances (model validation) ----
+EXTRA_STR = ["", " ", "_", "1_0", "1__0", "_1_", "1_e5", "1e_5", "1 0", "+.5e-3", "-5.E+2", "1E5", "2e", "+", "-", ".", "e5",
+             "00012", "0e5", "-0e-5", "0x10", "1,5", "Infinity", "inf", "-inf", "NaN", "snan", "1e400", "1e-400", "5.", ".5",
+             "++1", "1e+-2", " 7", "7 ", "1.2.3", "12abc", "w/5", "2*l", "True", "None", "1e0015", "-.0", "9" * 40, "0." + "0" * 30 + "1"]
+EXTRA_NUM = [["i", 0], ["i", -5], ["i", 10 ** 30], ["i", -(10 ** 18)], ["f", "1.5"], ["f", "1e-11"], ["f", "1e+22"], ["f", "5e-324"],
+             ["f", "1.7976931348623157e+308"], ["f", "-0.0"], ["f", "inf"], ["f", "nan"], ["f", "0.1"], ["f", "123456.789"],
+             ["f", "1.2345678901234568e+17"], ["D", "1.50"], ["D", "-0"], ["D", "1E-21"], ["D", "0E-30"], ["D", "123456789012345678901234567890.5"],
+             ["b", True], ["n"], ["L", "q"], ["r", 0], ["e", 0, "member"], ["R", [["i", 1]], "inst"],
+             ["P", "1", 3], ["P", "1000", 0], ["P", "1E-21", 0], ["P", "1", -24], ["P", "0.001", 24], ["P", "1e3", -3], ["P", "-0.0", 1]]
+
+
+def gen_value_cases(r, n):
+    cases = []
+    pool = {k: [v for c in cs for v in c] for k, cs in NUM_CLASSES.items()}
+    for _ in range(n):
+        kind = r.choices(["scalar", "dec", "pref"], [6, 3, 2])[0]
+        def one():
+            u = r.random()
+            if u < 0.45:
+                return with_form(r, list(r.choice(pool[kind])))
+            if u < 0.6:
+                return ["s", r.choice(EXTRA_STR)]
+            if u < 0.75:
+                return list(r.choice(EXTRA_NUM))
+            if u < 0.85:    # random decimal text
+                digs = "".join(r.choice("0123456789") for _ in range(r.randint(1, 12)))
+                k = r.randint(0, len(digs))
+                txt = r.choice(["", "-", "+"]) + digs[:k] + r.choice(["", "."]) + digs[k:]
+                if r.random() < 0.5:
+                    txt += r.choice(["e", "E"]) + r.choice(["", "-", "+"]) + str(r.randint(0, 30))
+                return [r.choice(["s", "s", "D"]), txt] if Decimal_ok(txt) else ["s", txt]
+            if u < 0.95:
+                num = str(r.randint(-5000, 5000)) + r.choice(["", ".0", ".50", "e2", "E-3"])
+                return with_form(r, ["P", num, r.choice([-24, -12, -9, -6, -3, -2, -1, 0, 1, 2, 3, 6, 9, 24])])
+            return ["f", repr(r.choice([1.0, 2.5, 1e-9, 3e8, 2000.0, 0.001, 1e21, 1e16, 123.456]))]
+        a = one()
+        b = with_form(r, list(r.choice(num_class(kind, a)))) if (num_class(kind, a) and r.random() < 0.5) else one()
+        cases.append(dict(dtype=[kind], a=a, b=b))
+    return cases
+
+
+def Decimal_ok(txt):
+    try:
+        return Decimal(txt).is_finite()
+    except Exception:
+        return False
+
+
+def c_held(x):
+    return "HRej" if x[0] == "rej" else f"(HVal {c_val(x)})"
+
+
+def c_obool(x):
+    if x is None:
+        return "OAbsent"
+    if isinstance(x, str):
+        return "ORaise"
+    return "OTrue" if x else "OFalse"
+
+
+def run_values(run, seed, quick, only=None):
+    r = core.rng(seed, "C09", "values")
+    if only is not None:
+        cases = [only]
+    else:
+        cases = gen_value_cases(r, 2500 if quick else 40000)
+        # plus every pair inside each class (equal) and one representative pair across classes (unequal)
+        for kind, cs in NUM_CLASSES.items():
+            for c in cs:
+                for a in c:
+                    cases.append(dict(dtype=[kind], a=a, b=r.choice(c)))
+            for c1, c2 in itertools.combinations(cs, 2):
+                cases.append(dict(dtype=[kind], a=c1[0], b=c2[-1]))
+    cases = [c for c in cases if ascii_ok(json.dumps(c))]
+    outs = core.run_worker_sharded("c09", cases, key="values", timeout=900)
+    keep = [(c, o) for c, o in zip(cases, outs) if all(h[0] == "rej" or h[0] != "?" for h in o["held"])]
+    strs = [f"(Build_vcase {c_dtype(c['dtype'])} {c_val(c['a'])} {c_val(c['b'])} {c_held(o['held'][0])} {c_held(o['held'][1])} "
+            f"{c_obool(o['eq'])} {c_obool(o['heq'])})" for c, o in keep]
+    bad = core.coq_eval_cases("C09", "values", IMPORTS, "vcase", strs, "run_cases chk_value", chunk=600)
+    distinct = len({json.dumps(c, sort_keys=True) for c, _ in keep})
+    eq_pairs = sum(1 for _, o in keep if o["eq"] is True)
+    eq_diff = sum(1 for c, o in keep if o["eq"] is True and json.dumps(c["a"][:3]) != json.dumps(c["b"][:3]))
+    run.stream("values", len(keep), distinct, rejected_values=sum(1 for _, o in keep for h in o["held"] if h[0] == "rej"),
+               pairs_compared_equal=eq_pairs, pairs_equal_but_written_differently=eq_diff,
+               pairs_eq_raised=sum(1 for _, o in keep if isinstance(o["eq"], str)),
+               literals_held=sum(1 for _, o in keep for h in o["held"] if h[0] == "L"),
+               skipped_outside_grammar=len(cases) - len(keep),
+               rule="one case = (dtype, written a, written b): held value of each after validation (or rejection), a == b and "
+                    "hash(a) == hash(b) of the two paramclass instances, against validate / inst_eqb / hash_eqb / canon of the model; "
+                    "distinct by the written case")
+    if bad:
+        i, code = bad[0]
+        c, o = keep[i]
+        run.violation("C09:values:tie", f"model and implementation differ on the validation / == / hash of {json.dumps(c)}: observed {json.dumps(o)}",
+                      dict(kind="correspondence-broken", stream="values", case=c, observed=o, disagreeing_cases=len(bad),
+                           theorem="C09 correspondence stream values (validate, inst_eqb, hash_eqb)"), found_input=False)
+    if keep:
+        c, o = keep[len(keep) // 3]
+        run.sample(dict(stream="values", case=c, observed=o))
+    return dict(eq_diff=eq_diff)
 
 
 def malformed(r, n):
@@ -429,8 +740,128 @@ def nontrivial(g):
     """non-trivial = the group has a repeated call AND (a hand-on / nested body, or a non-plain or coerced value)."""
     txt = json.dumps(g["hists"])
     rep = any(len({json.dumps(c[:2]) for c in h}) < len(h) for h in g["hists"]) or len(g["hists"]) > 1
-    rich = any(e["calls"] for e in g["table"]) or any(s in txt for s in ('" "', "=", "None", '"b"', '"e"', '"R"', '"r"'))
+    rich = any(e["calls"] for e in g["table"]) or any(s in txt for s in ('" "', "=", "None", '"b"', '"e"', '"R"', '"r"', '"P"', '"D"', '"L"'))
     return rep and rich
+
+
+# ---- measured coverage of the shapes the property quantifies over (declared targets: a quick run in which one of them
+#      is not met reports it - fail closed) ----
+TARGETS = ["fields_scalar", "fields_prefixed", "fields_decimal", "fields_optional_or_nested_number",
+           "equal_values_written_differently_pairs", "value_classes_first_called_by_different_spellings_in_fresh_interpreters",
+           "spellings_run_alone_in_a_fresh_interpreter", "nested_calls_with_number_arguments", "hand_on_bodies_with_number_arguments",
+           "calls_ref_module", "calls_ref_generator", "calls_ref_extmodule", "calls_ref_primcall", "calls_ref_extcall",
+           "equal_call_references_built_separately_pairs", "literal_values", "number_inputs_int", "number_inputs_float",
+           "number_inputs_str", "number_inputs_decimal", "number_inputs_prefixed"]
+
+
+def walk_dtypes(d, depth=0):
+    yield d, depth
+    if d[0] == "opt":
+        yield from walk_dtypes(d[1], depth + 1)
+    if d[0] == "rec":
+        for dd in d[1]:
+            yield from walk_dtypes(dd, depth + 1)
+
+
+def arg_ids(fields, args):
+    """(value identity, spelling) of an argument list, or None when a field is outside the number-like / plain kinds"""
+    ids, sp = [], []
+    for f, a in zip(fields, args):
+        d = f["dtype"]
+        if a is None:
+            a = f.get("default")
+        if a is None:
+            return None
+        while d[0] == "opt":
+            d = d[1]
+        if d[0] in NUM_CLASSES:
+            ids.append(value_id(d[0], a))
+        elif a[0] == "r":
+            ids.append(("r", a[1]))
+        elif d[0] == "rec" and a[0] == "R" and len(a[1]) == len(d[1]):
+            sub = arg_ids([dict(dtype=dd) for dd in d[1]], a[1])
+            if sub is None:
+                return None
+            ids.append(("R", sub[0]))
+            sp.append(sub[1])
+            continue
+        else:
+            ids.append(("v", json.dumps(a[:2])))
+        sp.append(json.dumps(a[:3]))
+    return json.dumps(ids), json.dumps(sp)
+
+
+def has_number(fields, args):
+    txt = json.dumps([f["dtype"] for f in fields])
+    return any(k in txt for k in ('"scalar"', '"pref"', '"dec"'))
+
+
+def measure(cov, g, outs):
+    univ = g["univ"]
+    for gen in univ:
+        for f in gen["fields"]:
+            for d, depth in walk_dtypes(f["dtype"]):
+                if d[0] == "scalar":
+                    cov["fields_scalar"] += 1
+                if d[0] == "pref":
+                    cov["fields_prefixed"] += 1
+                if d[0] == "dec":
+                    cov["fields_decimal"] += 1
+                if d[0] in NUM_CLASSES and depth > 0:
+                    cov["fields_optional_or_nested_number"] += 1
+    def count_vals(v):
+        if v is None:
+            return
+        t = v[0]
+        if t == "R":
+            for x in v[1]:
+                count_vals(x)
+        elif t == "L":
+            cov["literal_values"] += 1
+        elif t == "r":
+            cov["calls_ref_" + REF_KIND[v[1] % NREF]] += 1
+    first = {}      # (gen, value id) -> set of spellings that were the FIRST call of that value in some history
+    alone = set()
+    spell_of = {}   # (gen, value id) -> spellings seen
+    for h, o in zip(g["hists"], outs):
+        seen = set()
+        nacc = sum(1 for x in o["obs"] if x[0] == "acc")
+        for k, c in enumerate(h[:nacc]):
+            fields = univ[c[0]]["fields"]
+            for f, a in zip(fields, c[1]):
+                count_vals(a)
+                d = f["dtype"]
+                while d[0] == "opt":
+                    d = d[1]
+                if a is not None and d[0] in NUM_CLASSES:
+                    key = {"i": "int", "f": "float", "s": "str", "D": "decimal", "P": "prefixed"}.get(a[0])
+                    if key:
+                        cov["number_inputs_" + key] += 1
+            if not has_number(fields, c[1]) and '"ref"' not in json.dumps([f["dtype"] for f in fields]):
+                continue
+            ids = arg_ids(fields, c[1])
+            if ids is None:
+                continue
+            vk = (c[0], ids[0])
+            spell_of.setdefault(vk, set()).add(ids[1])
+            if vk not in seen:
+                seen.add(vk)
+                first.setdefault(vk, set()).add(ids[1])
+                if len(h) == 1:
+                    alone.add((vk, ids[1]))
+    for vk, sps in spell_of.items():
+        n = len(sps)
+        if '"r"' in vk[1] and '"N"' not in vk[1]:
+            cov["equal_call_references_built_separately_pairs"] += n * (n - 1) // 2
+        else:
+            cov["equal_values_written_differently_pairs"] += n * (n - 1) // 2
+    cov["value_classes_first_called_by_different_spellings_in_fresh_interpreters"] += sum(1 for v in first.values() if len(v) > 1)
+    cov["spellings_run_alone_in_a_fresh_interpreter"] += len(alone)
+    for e in g["table"]:
+        n = sum(1 for c in e["calls"] if has_number(univ[c[0]]["fields"], c[1]))
+        cov["nested_calls_with_number_arguments"] += n
+        if n and e["ret"][0] == "pass":
+            cov["hand_on_bodies_with_number_arguments"] += 1
 
 
 def size_of(g):
@@ -498,10 +929,16 @@ def run(run, tier, seed, replay=None):
         run.stream("replay", len(keep), len(keep))
         report(run, "replay", res)
         return
+    if replay is not None and "case" in replay:
+        run_values(run, seed, quick, only=replay["case"])
+        return
     total_hist = 0
+    cov = {t: 0 for t in TARGETS}
     # ------------------------------------------------------------------ corpus
     cg = corpus()
-    keep, res, skipped = evaluate(run, "corpus", cg, chunk=4)
+    keep, res, skipped = evaluate(run, "corpus", cg, chunk=3)
+    for g, o in keep:
+        measure(cov, g, o)
     nh = sum(len(g["hists"]) for g, _ in keep)
     total_hist += nh
     run.stream("corpus", nh, len({shrink_key(g) for g, _ in keep if nontrivial(g)}), groups=len(keep),
@@ -513,6 +950,8 @@ def run(run, tier, seed, replay=None):
     # ------------------------------------------------------------------ exhaustive-small
     eg = exhaustive_small(quick)
     keep, res, skipped = evaluate(run, "box", eg, chunk=1)
+    for g, o in keep:
+        measure(cov, g, o)
     nh = sum(len(g["hists"]) for g, _ in keep)
     total_hist += nh
     npairs = sum(len(g["hists"][0]) * (len(g["hists"][0]) - 1) // 2 for g, _ in keep)
@@ -520,13 +959,17 @@ def run(run, tier, seed, replay=None):
                pairs_of_parameter_sets=npairs, tags=[g.get("tag") for g, _ in keep], skipped_unprintable=skipped,
                rule="every pair of parameter sets of a value box inside one history and its reverse; distinct = boxes")
     report(run, "box", res)
+    # ------------------------------------------------------------------ values (validation / == / hash of the number-like values)
+    vstat = run_values(run, seed, quick)
     # ------------------------------------------------------------------ structured random
-    n_rand = 330 if quick else 12000
+    n_rand = 480 if quick else 12000
     rg = []
     for k in range(n_rand):
         r = core.rng(seed, "C09", "random", k)
         rg.append(gen_group(r, scalar_only=(k % 3 == 0), cyclic=0.03))
     keep, res, skipped = evaluate(run, "random", rg)
+    for g, o in keep:
+        measure(cov, g, o)
     nh = sum(len(g["hists"]) for g, _ in keep)
     total_hist += nh
     rej = sum(1 for _, o in keep for oo in o if oo["obs"] and oo["obs"][-1][0] == "rej")
@@ -543,7 +986,7 @@ def run(run, tier, seed, replay=None):
         g, o = keep[len(keep) // 2]
         run.sample(dict(stream="random", universe=g["univ"], history=g["hists"][0], observed=o[0]["obs"]))
     # ------------------------------------------------------------------ malformed
-    n_bad = 60 if quick else 1500
+    n_bad = 80 if quick else 1500
     mg = malformed(core.rng(seed, "C09", "malformed"), n_bad)
     keep, res, skipped = evaluate(run, "malformed", mg)
     nh = sum(len(g["hists"]) for g, _ in keep)
@@ -554,3 +997,13 @@ def run(run, tier, seed, replay=None):
                rule="invalid arguments, missing required fields, circular generator calls; distinct by group")
     report(run, "malformed", res)
     run.coverage["traces_validated_against_impl"] = total_hist
+    # ------------------------------------------------------------------ declared coverage targets (fail closed)
+    run.coverage["shape_coverage"] = dict(cov, rule="counted over the corpus, exhaustive-small and structured-random groups that were "
+                                          "evaluated: fields by dtype, accepted calls by kind of argument, pairs of distinct spellings of one "
+                                          "value per generator and group, value classes whose first call was spelled differently in two "
+                                          "fresh interpreters of a group, spellings that were the only call of their interpreter")
+    missing = [t for t in TARGETS if cov[t] == 0]
+    if missing:
+        run.violation("C09:coverage-target-missing:" + ",".join(missing),
+                      "declared coverage targets of the C09 streams were not met in this run: " + ", ".join(missing),
+                      dict(kind="coverage-missing", targets=missing, measured=cov), found_input=False)
